@@ -36,6 +36,7 @@ ALPHABET_CHARS = [
     '\uffff',      # noncharacter (Cn)
     '\U0010ffff',  # last code point (Cn)
     '\ud800',      # lone surrogate (Cs)
+    '\ufeff',      # byte order mark / zero width no-break space (Cf)
 ]
 ALPHABET_NAMES = [
     'begin', 'end', 'item', 'verbatim', 'lstlisting', 'left', 'right', 'big',
